@@ -67,6 +67,7 @@ type State struct {
 	PathID   int
 	Lock     map[int]int // obj id of mutex -> 0 free, 1 rlock, 2 wlock
 	Ghost    map[string]Val
+	StrFacts []*StrFact // shapes of strings established by successful regexp matches on this path
 	InMapRange bool // an iteration over a map has started on this path (element order of lists built since is arbitrary)
 }
 
@@ -96,7 +97,7 @@ func (w *WriteRec) note(obj int, path []PathElem) {
 }
 
 func (s *State) clone() *State {
-	n := &State{PC: s.PC[:len(s.PC):len(s.PC)], Heap: make(map[int]Val, len(s.Heap)), Meta: s.Meta, Maps: make(map[int]*MapState, len(s.Maps)), Record: s.Record, Alloc: s.Alloc, InMapRange: s.InMapRange}
+	n := &State{PC: s.PC[:len(s.PC):len(s.PC)], Heap: make(map[int]Val, len(s.Heap)), Meta: s.Meta, Maps: make(map[int]*MapState, len(s.Maps)), Record: s.Record, Alloc: s.Alloc, InMapRange: s.InMapRange, StrFacts: s.StrFacts[:len(s.StrFacts):len(s.StrFacts)]}
 	for k, v := range s.Heap {
 		n.Heap[k] = v
 	}
